@@ -56,6 +56,7 @@ func crashScenario(base string, at int, kill bool, dir string) (*sched.Scenario,
 			return s
 		}
 		cs = &sim.CrashStore{Store: s, Node: 0, At: at, Kill: kill, Written: map[string]bool{}}
+		cs.Arm() // cut points are Badger transactions (node 0 is the only database user of the process)
 		return cs
 	}
 	return sc, &cs
@@ -125,6 +126,7 @@ func runCrashPoint(it CrashItem, p int, res *CrashResult, dir string) {
 			return
 		}
 	}
+	sim.Disarm() // from here on nothing is cut any more
 	cs := *csp
 	if cs.Writes > res.MaxWrites {
 		res.MaxWrites = cs.Writes
@@ -419,6 +421,7 @@ func init() {
 				}
 				x.Step(a)
 			}
+			sim.Disarm()
 			x.C.Nodes[0].KeepDir = true
 			x.Close()
 			lone2 := sim.NewCluster(sim.Config{N: sc.Cfg.N, Solo: true, BootstrapDir: filepath.Join(dir, "badger-0")})
@@ -463,6 +466,7 @@ func init() {
 			for _, a := range sc.Seed {
 				x.Step(a)
 			}
+			sim.Disarm()
 			w := (*csp).Writes
 			x.Close()
 			return w
@@ -569,8 +573,8 @@ func init() {
 			samples = append(samples, s)
 		}
 		cov["samples"] = samples
-		cov["rule"] = "node 0 runs on a BadgerStore behind a wrapper counting its durable store writes (SetEvent/SetRound/SetBlock/SetFrame/SetPeerSet); for every write index p of the stated histories (static seed: every p; dynamic seeds: the stated stride) the node is cut before write p (all in-memory objects abandoned), its directory reopened by a fresh Node with Bootstrap=true through the real Init -> Hashgraph.Bootstrap -> setHeadAndSeq with a reset application, plus a clean close after the whole seed. Oracle: every block delivered before the cut is re-delivered identically and in order; the node knows exactly the events whose SetEvent had returned; head/seq = last persisted self-event; after a fair continuation its next self-event has index seq+1, is accepted by all, no two events of it share a height, and the C01/C02 monitors stay green; then the node is stopped cleanly and bootstrapped a second time and must know everything it knew before that stop (events, delivered blocks, head), continue without a self-fork. The crash points of the first history are repeated with fast-sync enabled at the restart (after Init the node is CatchingUp and runs the real Node.fastForward once: against its peers as they are, and with no peer answering); when no anchor is adopted the node must go on Babbling from its database and the whole oracle applies (restarts that do adopt an anchor are counted and only monitored for C01/C02). They are repeated once more with an event refused by the node before the crash (correctly signed by a validator key, right self-parent, wrong index). Crash-model validation: the same history in a child process that SIGKILLs itself at write p; the state recovered from its directory must equal the one recovered after the in-process cut. distinct_nontrivial = distinct recovered states"
-		rep.Assumptions = []string{"a crash is modelled as the prefix of committed Badger transactions (validated by the SIGKILL pass); OS/power failure with SyncWrites=false is outside", "multi-transaction store calls (SetPeerSet, Reset) are cut at their boundaries only"}
+		cov["rule"] = "node 0 runs on a BadgerStore; its database transactions are counted by a hook inside badger's Txn.Commit (a Store call may consist of several); for every transaction index p of the stated histories (static seed: every p; dynamic seeds: the stated stride) the node is cut before write p (all in-memory objects abandoned), its directory reopened by a fresh Node with Bootstrap=true through the real Init -> Hashgraph.Bootstrap -> setHeadAndSeq with a reset application, plus a clean close after the whole seed. Oracle: every block delivered before the cut is re-delivered identically and in order; the node knows exactly the events whose SetEvent had returned; head/seq = last persisted self-event; after a fair continuation its next self-event has index seq+1, is accepted by all, no two events of it share a height, and the C01/C02 monitors stay green; then the node is stopped cleanly and bootstrapped a second time and must know everything it knew before that stop (events, delivered blocks, head), continue without a self-fork. The crash points of the first history are repeated with fast-sync enabled at the restart (after Init the node is CatchingUp and runs the real Node.fastForward once: against its peers as they are, and with no peer answering); when no anchor is adopted the node must go on Babbling from its database and the whole oracle applies (restarts that do adopt an anchor are counted and only monitored for C01/C02). They are repeated once more with an event refused by the node before the crash (correctly signed by a validator key, right self-parent, wrong index). Crash-model validation: the same history in a child process that SIGKILLs itself at write p; the state recovered from its directory must equal the one recovered after the in-process cut. distinct_nontrivial = distinct recovered states"
+		rep.Assumptions = []string{"a crash is modelled as the prefix of committed Badger transactions (a hook at the start of badger's Txn.Commit, added by the build overlay, counts them; validated by the SIGKILL pass); OS/power failure with SyncWrites=false is outside"}
 		if tot.Ctr["points_with_blocks_before_crash"] < 5 && len(tot.Viol) == 0 {
 			rep.Finish()
 			ev.Fail("vacuity guard: only %d crash points had delivered blocks", tot.Ctr["points_with_blocks_before_crash"])
